@@ -54,11 +54,17 @@ type Pin struct {
 type Case struct {
 	Ops []Op `json:"ops"`
 	Pin *Pin `json:"pin,omitempty"`
+	// SafeRanged: ranged clears that would hit known finding C20-ranged-clear
+	// (start > 0, or an end so small that nil entries stay inside the kept
+	// part) are skipped when the operation is reached; the others - which
+	// leave a consistent list on the unchanged tree - are executed.
+	SafeRanged bool `json:"safe_ranged,omitempty"`
 	// NoFaults restricts the case to the fault-free pass.
 	NoFaults bool `json:"no_faults,omitempty"`
 }
 
 type engine struct {
+	safeRanged bool // of the case being executed
 	shortWrite bool
 	base       string
 	n          int
@@ -224,7 +230,8 @@ func (e *engine) Generate(seed uint64, idx int, tier string, avoid []harness.Fin
 	wClear := r.Intn(8)
 	wRestart := 3 + r.Intn(15)
 	wLimit := r.Intn(6)
-	rangedClear := r.Pct(25) && !avoids(avoid, "ranged-clear")
+	rangedClear := r.Pct(25)
+	c.SafeRanged = avoids(avoid, "ranged-clear")
 	total := wHist + wStash + wSet + wClear + wRestart + wLimit
 	var pool [][]string
 	for len(c.Ops) < n {
@@ -263,6 +270,10 @@ func (e *engine) Generate(seed uint64, idx int, tier string, avoid []harness.Fin
 			if rangedClear && r.Pct(50) {
 				op.A = r.Intn(4)
 				op.B = op.A + r.Intn(4)
+				if c.SafeRanged {
+					op.A = 0
+					op.B = 1 + r.Intn(12)
+				}
 			}
 			c.Ops = append(c.Ops, op)
 		case x < wHist+wStash+wSet+wClear+wRestart:
@@ -367,7 +378,8 @@ type world struct {
 	dir  string
 	sess *simos.Session
 	// counters
-	steps int
+	steps      int
+	safeRanged bool
 	// edBuf are the editor's line buffers: like the real editor the harness
 	// reuses them for the next form after handing a form to Add, so an Add
 	// that keeps references to the caller's runes is found out
@@ -423,7 +435,7 @@ func (e *engine) Close() {
 func (e *engine) newWorld() *world {
 	e.n++
 	home := filepath.Join(e.base, fmt.Sprintf("w%d", e.n))
-	w := &world{e: e, home: home, dir: filepath.Join(home, ".config", "slip")}
+	w := &world{e: e, home: home, dir: filepath.Join(home, ".config", "slip"), safeRanged: e.safeRanged}
 	if err := os.MkdirAll(home, 0o755); err != nil {
 		panic(err)
 	}
@@ -543,6 +555,19 @@ func (w *world) apply(op Op) (crashed bool, fail string) {
 			repl.TheHistory.Add(d)
 		}
 	case "hclear", "sclear":
+		if w.safeRanged && (op.A != 0 || op.B != -1) {
+			n := repl.TheHistory.Size()
+			if op.K == "sclear" {
+				n = repl.TheStash.Size()
+			}
+			end := op.B
+			if end < 0 || n <= end {
+				end = n - 1
+			}
+			if op.A > 0 || 2*end+2 < n || n == 0 {
+				return false, "" // would hit the known finding: skipped
+			}
+		}
 		name := "clear-history"
 		if op.K == "sclear" {
 			name = "clear-stash"
@@ -824,6 +849,7 @@ func (e *engine) Execute(raw json.RawMessage) (vd harness.Verdict) {
 		panic(err)
 	}
 	a := &acc{faults: map[string]int{}, probes: map[string]int{}}
+	e.safeRanged = c.SafeRanged
 	defer func() {
 		vd.Hashes, vd.Evals, vd.Faults, vd.Probes = a.hashes, a.evals, a.faults, a.probes
 	}()
@@ -1125,7 +1151,7 @@ func caseHas(c Case, trig string) bool {
 	for _, op := range c.Ops {
 		switch trig {
 		case "ranged-clear":
-			if (op.K == "hclear" || op.K == "sclear") && (op.A != 0 || op.B != -1) {
+			if (op.K == "hclear" || op.K == "sclear") && (op.A != 0 || op.B != -1) && !c.SafeRanged {
 				return true
 			}
 		case "set:" + op.Var:
